@@ -69,11 +69,12 @@ TARGETS: list[tuple[str, Optional[tuple], list[tuple]]] = [
     ("x.a[0]", ("x", "a", 0), [("x", "a", 0)]),
     ("x[0].a", ("x", 0, "a"), [("x", 0, "a")]),
     ("x[-1]", ("x", -1), [("x",)]),
-    ("x[k]", None, [("x",), ("k",)]),
-    ("x[k].a", None, [("x",), ("k",)]),
-    ("x.a[k]", None, [("x", "a"), ("k",)]),
-    ("y[x.a]", None, [("y",), ("x", "a")]),
-    ("y[x.a].a", None, [("y",), ("x", "a")]),
+    ("x[k]", ("x", ("$", ("k",))), [("x",), ("k",)]),
+    ("x[k].a", ("x", ("$", ("k",)), "a"), [("x",), ("k",)]),
+    ("x.a[k]", ("x", "a", ("$", ("k",))), [("x", "a"), ("k",)]),
+    ("y[x.a]", ("y", ("$", ("x", "a"))), [("y",), ("x", "a")]),
+    ("y[x.a].a", ("y", ("$", ("x", "a")), "a"), [("y",), ("x", "a")]),
+    ("x.first.a", ("x", "first", "a"), [("x",)]),
     ("x.size", ("x", "size"), [("x",)]),
     ("x.first", ("x", "first"), [("x",)]),
     ("nosuch", ("nosuch",), [("nosuch",)]),
@@ -95,6 +96,7 @@ PROBE_DATA: list[tuple[str, dict[str, Any]]] = [
     ("P11", {"x": ""}),
     ("P12", {"x": {"a": "B"}, "y": {"B": {"a": 1}}, "k": "a", "n": 0}),
     ("P13", {"x": ["p", "q"], "k": None, "n": -1}),
+    ("P14", {"x": [["p"], "q"], "k": "w", "y": {"w": 1}}),
 ]
 
 CMP_LITS = ["nil", "1", "'a'", "false", "empty", "blank", "nosuch2", "y"]
@@ -154,8 +156,19 @@ def build_ops(filter_names: list[str]) -> list[tuple[str, Optional[str]]]:
         ("{% assign z = {T} %}Z", None),
         ("{% assign z = {T} %}{% if z %}T{% else %}F{% endif %}", None),
         ("{{ y[{T}] }}", None),
-        ("{% for i in (1..{T}) %}{{ i }}{% endfor %}", None),
-        ("{% for i in ({T}..2) %}{{ i }}{% endfor %}", None),
+        ("{% for i in (1..{T}) %}{{ i }}{% endfor %}", "range-bound"),
+        ("{% for i in ({T}..2) %}{{ i }}{% endfor %}", "range-bound"),
+        ("{% for i in ({T}..{T}) %}{{ i }}{% else %}E{% endfor %}", "range-bound"),
+        ("{% for i in (1..{T}) limit: 1 reversed %}{{ i }}{% else %}E{% endfor %}", "range-bound"),
+        ("{% tablerow i in (1..{T}) cols: 2 %}{{ i }}{% endtablerow %}", "range-bound"),
+        ("{% tablerow i in ({T}..2) %}{{ i }}{% endtablerow %}", "range-bound"),
+        ("{{ (1..{T}) | join: ',' }}", "range-bound"),
+        ("{{ ({T}..2) | size }}", "range-bound"),
+        ("{{ ({T}..2) }}", "range-bound"),
+        ("{% assign r = (1..{T}) %}{{ r | join: ',' }}", "range-bound"),
+        ("{% if (1..{T}) contains 2 %}T{% else %}F{% endif %}", "range-bound"),
+        ("{% if ({T}..3) contains 2 %}T{% else %}F{% endif %}", "range-bound"),
+        ("{% if ({T}..3) == (1..3) %}T{% else %}F{% endif %}", "range-bound"),
         ("{% for i in y limit: {T} %}{{ i }}{% endfor %}", None),
         ("{% for i in y offset: {T} %}{{ i }}{% endfor %}", None),
         ("{% tablerow i in y cols: {T} %}{{ i }}{% endtablerow %}", None),
@@ -216,7 +229,7 @@ FILTER_SWEEP_FROM = [0]
 FILTER_SWEEP_TARGETS = {"x", "x.a.b", "x[0]", "x.a[0]", "x[-1]", "x[k]", "y[x.a]", "nosuch"}
 # ... and the container-valued probe data (the scalar / empty assignments only serve as "defined" controls for
 # the truthiness / comparison ops and as validity baselines)
-FILTER_SWEEP_DATA = {"P0", "P1", "P2", "P3", "P7", "P8", "P12", "P13"}
+FILTER_SWEEP_DATA = {"P0", "P1", "P2", "P3", "P7", "P8", "P12"}
 
 
 def all_ops() -> list[tuple[str, Optional[str]]]:
@@ -297,16 +310,17 @@ class C16(Check):
         "G: every program of the shared corpus x every DATA_SETS assignment x every valid subset of <=2 deleted "
         "keys/sub-paths (all dict keys at any depth, list suffixes) x {Undefined, StrictUndefined, FalsyStrictUndefined, "
         "StrictDefaultUndefined}; P: every (operation, target path) probe (output/iterate/equality/compare/truthiness/"
-        "every registered filter x 5 argument shapes/filter argument x 3 shapes (8 of the targets, 8 of the data assignments)/tag argument) x 14 probe data assignments (incl. arrays holding nil and false) x every "
+        "every registered filter x 5 argument shapes/filter argument x 3 shapes (8 of the targets, 7 of the data assignments)/tag argument) x 14 probe data assignments (incl. arrays holding nil and false) x every "
         "deletion subset of <=2 paths x the 4 types. Clauses: 1 (statement) a strict type that renders ok gives the default "
         "type's output; 2a (statement) the default type never raises UndefinedError; 2c (statement) when the full data renders ok "
-        "the default type with deletions never lets a non-Liquid exception escape (no nil baseline); 2b (statement) when the full data "
+        "the default type with deletions never lets a non-Liquid exception escape (no nil baseline); 2d (statement) nor does it "
+        "for a valid probe whose target the resolver calls MISSING, deletions or not; 2b (statement) when the full data "
         "renders ok, the default type with deletions raises only what 'present but nil' raises too (only where the "
         "deleted paths are top-level keys or lie on the probe's target path, and -- when both raise -- both errors point "
         "at the same expression; else excluded); 3 (statement + "
         "docs/variables_and_drops.md 'Strict undefined'/'Falsy strict undefined' + API docstring of StrictDefaultUndefined) "
         "on a target the reference resolver calls MISSING, for probes that render ok on some data where the target is "
-        "FOUND: StrictUndefined raises UndefinedError for output/iterate/equality/compare/truthy/filter; "
+        "FOUND: StrictUndefined raises UndefinedError for output/iterate/equality/compare/truthy/filter/range bound; "
         "FalsyStrictUndefined raises UndefinedError for output/iterate and does not raise for truthy/equality (filters, ordering/contains/case: unspecified, tallied); "
         "StrictDefaultUndefined raises UndefinedError for all but `default`, where it must not raise. "
         "Every clause is applied to render() and to render_async() outcomes; 4 (C01/statement 'for every template and "
@@ -523,6 +537,10 @@ class C16(Check):
             elif st == M.MISSING and probe["valid"]:
                 c3 = True
                 kind = probe["kind"]
+                if ou.is_other_error and not (subset and ofull.ok):  # (with an ok baseline clause 2c reports it)
+                    viol({"clause": "2d-default-raises-non-liquid-on-missing-target", "exc": ou.error_class,
+                          "site": site(ou), "kind": kind},
+                         f"default Undefined raised non-Liquid {short(ou)} for a target the resolver calls missing")
                 for t in STRICT:
                     exp = expectation(t, kind)
                     if exp is None:
@@ -597,7 +615,7 @@ class C16(Check):
 
 def target_form(probe: dict[str, Any]) -> str:
     t = probe.get("target")
-    if t is None:
+    if t is None or any(isinstance(seg, (list, tuple)) for seg in t):
         return "dynamic"
     return "name" if len(t) == 1 else "path"
 
@@ -616,6 +634,10 @@ def expectation(t: str, kind: str) -> Optional[str]:
     """
     if t == "S":
         return None if kind == "default" else "raise"
+    if kind == "range-bound":
+        # docs: "any operation on an undefined variable will raise" (StrictUndefined); using it as a range bound converts
+        # it to an integer.  Only StrictUndefined is specified here.
+        return None
     if t == "F":
         if kind in ("truthy", "equality"):
             return "ok"
